@@ -222,6 +222,7 @@ def run_append_crash_states(workdir, cfg, base, delta, records, torn_record, new
     fails = []
     outcomes = {}
     states = 0
+    n_torn = 0
 
     def count(key):
         outcomes[key] = outcomes.get(key, 0) + 1
@@ -231,6 +232,7 @@ def run_append_crash_states(workdir, cfg, base, delta, records, torn_record, new
         states += 1
         crash.materialise(path, content)
         torn = 0 < k < full
+        n_torn += torn
         if k == full:
             completed = records + [torn_record]
         else:
@@ -282,7 +284,7 @@ def run_append_crash_states(workdir, cfg, base, delta, records, torn_record, new
             count('zero_filled_tail: new record read back exactly at reported nFields' if ok else 'zero_filled_tail: new record NOT read back at reported nFields')
         if torn:
             count('zero_filled_tail: torn states with completed records intact' if zero_fill else 'torn states fully recovered and continued')
-    return {'states': states, 'fails': fails, 'outcomes': outcomes}
+    return {'states': states, 'torn': n_torn, 'fails': fails, 'outcomes': outcomes}
 
 
 def run_header_crash_states(workdir, cfg, hbytes, ks=None, zero_fill=False):
